@@ -135,6 +135,7 @@ class CipherState:
             self.mac_key = mac_key
 
         self.block = max(8, self.bs)
+        self._first = None
 
         if self.kind == 'ctr':
             c = Cipher(factory(key), modes.CTR(iv))
@@ -254,10 +255,16 @@ class CipherState:
 
             plain = self._dec.update(buf[4:4 + length])
         else:
-            if len(buf) < self.block:
-                raise NeedMore()
+            if self._first is None:
+                if len(buf) < self.block:
+                    raise NeedMore()
 
-            first = self._dec.update(buf[:self.block])
+                # the first block is decrypted exactly once (the cipher is
+                # a stream/chained state); remember it until the rest of
+                # the packet has arrived
+                self._first = self._dec.update(buf[:self.block])
+
+            first = self._first
             length = struct.unpack('>I', first[:4])[0]
 
             if length < 1 or length > 1 << 20:
@@ -270,10 +277,9 @@ class CipherState:
                                  (4 + length, self.block))
 
             if len(buf) < total:
-                # cannot undo the stream cipher: caller must only feed
-                # complete packets in this mode
-                raise CodecError('incomplete packet fed to stream decoder')
+                raise NeedMore()
 
+            self._first = None
             rest = self._dec.update(buf[self.block:4 + length])
             whole = first + rest
 
